@@ -104,7 +104,11 @@ class Route:
             if f_out:
                 prt = f_out(prt)
             if f_in:
-                assert f_in(prt)[1]  # `pos` must be > 0 if match
+                # a filter may look ahead (e.g. `path`), so it is checked
+                # against the value followed by the literal text after the wildcard
+                tail_end = pattern_out.find('\r', cidx)
+                tail = pattern_out[cidx:] if tail_end < 0 else pattern_out[cidx:tail_end]
+                assert f_in(prt + tail)[1]  # `pos` must be > 0 if match
             ret.append(prt)
 
         if clen:
